@@ -577,7 +577,7 @@ def invoke(g, mac, bound, newvars):
 # ------------------------------------------------------------------ mutators: exactly one violation, at every position
 
 def mutant(p, cls, variant, pos, expect="err", **kw):
-    d = {"prog": p, "class": cls, "variant": variant, "pos": pos, "expect": expect, "faithful": True, "hazard": False}
+    d = {"prog": p, "class": cls, "variant": variant, "pos": pos, "expect": expect, "faithful": True, "alone": False}
     d.update(kw)
     return d
 
@@ -767,7 +767,7 @@ def mut_rebind(p, paren=False):
 
 
 def mut_aggbound(p):
-    """the bound argument of an aggregation names a variable that is already grounded"""
+    """the bound argument of an aggregation names a variable that is already grounded (rejected since fix 4509942: formerly finding FM2)"""
     rels = rels_of(p)
     for path, ctx in containers(p):
         if ctx["top"] == "macro": continue
@@ -799,7 +799,7 @@ def mut_recmacro(p):
                 q = copy.deepcopy(p); q["items"][i]["body"].insert(k, self_call)
                 yield mutant(q, "recursive-macro", "direct", "macro-head")
             q = copy.deepcopy(p); q["items"][i]["body"] += [self_call, copy.deepcopy(self_call)]
-            yield mutant(q, "recursive-macro", "direct-branching-head", "macro-head", hazard=True)
+            yield mutant(q, "recursive-macro", "direct-branching-head", "macro-head", alone=True)       # 2^100 expansions before fix deae510 (was FM8): an ordinary rejection now, run in a process of its own as a safety net
         else:
             for path, ctx in containers(p):
                 if ctx["top"] != "macro" or ctx["idx"] != i: continue
@@ -809,7 +809,7 @@ def mut_recmacro(p):
             q = copy.deepcopy(p); q["items"][i]["body"] += [self_call, copy.deepcopy(self_call)]
             yield mutant(q, "recursive-macro", "direct-twice-in-sequence", "macro-body")
             q = copy.deepcopy(p); q["items"][i]["body"].append(OR([[copy.deepcopy(self_call)], [copy.deepcopy(self_call)]]))
-            yield mutant(q, "recursive-macro", "direct-branching-disjunction", "macro-body/disjunct", hazard=True)
+            yield mutant(q, "recursive-macro", "direct-branching-disjunction", "macro-body/disjunct", alone=True)
             # mutual: a new macro with the same parameters that calls back
             q = copy.deepcopy(p)
             other = MAC("zmut9", it["params"], [copy.deepcopy(self_call)], head=False)
@@ -1020,7 +1020,7 @@ def mut_order(p, rng):
     The property asks for a rejection, the tie for the SAME error kind as the model."""
     def first(gen):
         for m in gen:
-            if m["faithful"] and not m["hazard"] and m["expect"] == "err" and syntax_ok(m["prog"]): return m
+            if m["faithful"] and m["expect"] == "err" and syntax_ok(m["prog"]): return m
         return None
     # the signatures are compared after the rules, the program attributes and the declarations, BEFORE the stratification test
     sigs = [("name", {"s": "Prg", "i": "Other", "gm": True, "text": "struct Prg; impl Other;"}),
@@ -1048,6 +1048,15 @@ def mut_order(p, rng):
                 q = with_extra(copy.deepcopy(p))
                 get(q, qpath).insert(k, agg)
                 yield mutant(q, "two-violations", f"agg-bound-arg-missing+{variant} (one aggregation)", poskind(ctx))
+            # the bound arguments are tested like binders (fix 4509942) AFTER the test "is an argument of the aggregated relation", BEFORE the pattern
+            # and prog_get_relation; a repeated bound argument is a rebind too
+            for variant, agg in (("agg-bound-arg-missing+bound-arg-rebind", AGG("zm9", ["zm9"], "min", [v, "zq9"], EXTRA, [V(v), W()])),
+                                 ("bound-arg-rebind+undeclared", AGG("zm9", ["zm9"], "min", [v], "undeclared9", [V(v), W()])),
+                                 ("bound-arg-rebind+arity", AGG("zm9", ["zm9"], "min", [v], EXTRA, [V(v), W(), W()])),
+                                 ("bound-arg-twice+undeclared", AGG("zm9", ["zm9"], "min", ["zq9", "zq9"], "undeclared9", [V("zq9"), W()]))):
+                q = with_extra(copy.deepcopy(p))
+                get(q, qpath).insert(k, agg)
+                yield mutant(q, "two-violations", f"{variant} (one aggregation)", poskind(ctx))
             # .. but an earlier item of the same body is answered first
             q = with_extra(copy.deepcopy(p))
             get(q, qpath).insert(k, AGG("zm9", ["zm9"], "min", ["zq9"], EXTRA, [W(), W()]))
